@@ -90,6 +90,7 @@ template <class T> struct Acc : public Array0<T> {             // a derived clas
 
 static const long WILD = LONG_MIN;
 static bool on_free_list(const void* data);
+static long pool_outstanding();
 // value-semantics oracle with alias groups: a logical copy joins the group of its source
 struct OHandle { std::shared_ptr<std::vector<long> > grp; size_t size; OHandle() : size(0) {} };
 struct Oracle {
@@ -139,6 +140,20 @@ struct Fx { bool realloc_, nocopy, selflog; };
 static Fx parse_fx(const std::string& s) { Fx f; f.realloc_ = s[0] == '1'; f.nocopy = s[1] == '1'; f.selflog = s[2] == '1'; return f; }
 
 static int g_forms = 0;
+// call-form coverage: how often each public call form was executed by this process (command `formcounts`)
+enum { F_CTOR_ST, F_CTOR_S, F_CTOR_WITHCOPY, F_CTOR_COPY, F_CTOR_NOCOPY, F_DTOR, F_LOGCOPY, F_COPY, F_ASSIGN, F_ALLOCATE, F_REALLOCATE, F_RESIZE,
+       F_PUSH_BACK, F_DESTROY, F_RESERVE, F_WRITE, F_FRONT_W, F_BACK_W, F_BEGIN_W, F_END_W, F_BASEPTR_W, F_INDEX_W,
+       F_READ, F_INDEX_R, F_BEGIN_R, F_FRONT_R, F_BACK_R, F_END_R, F_BASEPTR_R, F_NFORMS };
+static const char* const g_fname[F_NFORMS] = { "Array0(s,t)", "Array0(s)", "Array0(p,givWithCopy)", "Array0(p)", "Array0(p,givNoCopy)", "~Array0", "logcopy", "copy", "operator=",
+       "allocate", "reallocate", "resize", "push_back", "destroy", "reserve", "write", "front()=", "back()=", "*(begin()+k)=", "*(end()-j)=", "baseptr()[k]=", "operator[]=",
+       "read", "operator[]const", "*(begin()+k)const", "front()const", "back()const", "*(end()-j)const", "baseptr()const[k]" };
+static long g_fc[F_NFORMS];
+static long g_step = 0;                            // operations applied so far in this process: selects the write call form
+// GMP allocation balance (all commands): every Integer element constructed by a container must be destroyed by it
+static long g_gmp_out = 0;
+static void* c_alloc(size_t n) { ++g_gmp_out; return malloc(n); }
+static void* c_realloc(void* p, size_t, size_t n) { return realloc(p, n); }
+static void c_free(void* p, size_t) { --g_gmp_out; free(p); }
 static long m1 = 2147483647L, m2 = 2147483629L, g_h1 = 0, g_h2 = 0;
 static void mix(long x) { x += 5; g_h1 = (g_h1 * 1000003L + x) % m1; g_h2 = (g_h2 * 998244353L + x) % m2; }
 
@@ -170,31 +185,35 @@ template <class T> struct World {
     }
     void apply(const Op& o) {
         Acc<T>& x = H(o.h);
+        ++g_step;
         switch (o.kind) {
-        case 'B': x.~Acc<T>();
-                  if (g_forms && o.b == 0) new (&buf[o.h]) Acc<T>((size_t) o.a); else new (&buf[o.h]) Acc<T>((size_t) o.a, T(o.b));
+        case 'B': x.~Acc<T>(); ++g_fc[F_DTOR];
+                  if (g_forms && o.b == 0) { new (&buf[o.h]) Acc<T>((size_t) o.a); ++g_fc[F_CTOR_S]; } else { new (&buf[o.h]) Acc<T>((size_t) o.a, T(o.b)); ++g_fc[F_CTOR_ST]; }
                   orc.build(o.h, (size_t) o.a, o.b); break;
-        case 'W': if (o.h == (int) o.a) break; x.~Acc<T>();
-                  if (g_forms == 2) new (&buf[o.h]) Acc<T>(H((int) o.a)); else new (&buf[o.h]) Acc<T>(H((int) o.a), givWithCopy());
+        case 'W': if (o.h == (int) o.a) break; x.~Acc<T>(); ++g_fc[F_DTOR];
+                  if (g_forms == 2) { new (&buf[o.h]) Acc<T>(H((int) o.a)); ++g_fc[F_CTOR_COPY]; } else { new (&buf[o.h]) Acc<T>(H((int) o.a), givWithCopy()); ++g_fc[F_CTOR_WITHCOPY]; }
                   orc.withcopy(o.h, (int) o.a); break;
-        case 'N': if (o.h == (int) o.a) break; x.~Acc<T>(); new (&buf[o.h]) Acc<T>(H((int) o.a), givNoCopy()); orc.share(o.h, (int) o.a); break;
-        case 'L': x.logcopy(H((int) o.a)); orc.share(o.h, (int) o.a); break;
-        case 'C': if (g_forms) static_cast<Array0<T>&>(x) = static_cast<const Array0<T>&>(H((int) o.a)); else x.copy(H((int) o.a));
+        case 'N': if (o.h == (int) o.a) break; x.~Acc<T>(); ++g_fc[F_DTOR]; new (&buf[o.h]) Acc<T>(H((int) o.a), givNoCopy()); ++g_fc[F_CTOR_NOCOPY]; orc.share(o.h, (int) o.a); break;
+        case 'L': x.logcopy(H((int) o.a)); ++g_fc[F_LOGCOPY]; orc.share(o.h, (int) o.a); break;
+        case 'C': if (g_forms) { static_cast<Array0<T>&>(x) = static_cast<const Array0<T>&>(H((int) o.a)); ++g_fc[F_ASSIGN]; } else { x.copy(H((int) o.a)); ++g_fc[F_COPY]; }
                   orc.copy(o.h, (int) o.a); break;
-        case 'A': x.allocate((size_t) o.a); orc.allocate(o.h, (size_t) o.a); break;
-        case 'R': if (g_forms) x.resize((size_t) o.a); else x.reallocate((size_t) o.a); orc.reallocate(o.h, (size_t) o.a); break;
-        case 'P': x.push_back(T(o.b)); orc.push_back(o.h, o.b); break;
-        case 'D': x.destroy(); orc.detach(o.h); break;
-        case 'V': x.reserve((size_t) o.a); orc.reserve(o.h, (size_t) o.a); break;
+        case 'A': x.allocate((size_t) o.a); ++g_fc[F_ALLOCATE]; orc.allocate(o.h, (size_t) o.a); break;
+        case 'R': if (g_forms) { x.resize((size_t) o.a); ++g_fc[F_RESIZE]; } else { x.reallocate((size_t) o.a); ++g_fc[F_REALLOCATE]; } orc.reallocate(o.h, (size_t) o.a); break;
+        case 'P': x.push_back(T(o.b)); ++g_fc[F_PUSH_BACK]; orc.push_back(o.h, o.b); break;
+        case 'D': x.destroy(); ++g_fc[F_DESTROY]; orc.detach(o.h); break;
+        case 'V': x.reserve((size_t) o.a); ++g_fc[F_RESERVE]; orc.reserve(o.h, (size_t) o.a); break;
         case 'X': {
             size_t k = (size_t) o.a;
             if (k < x.size()) {
-                if (!g_forms) x.write(k, T(o.b));
-                else if (k == 0 && (o.b & 1)) x.front() = T(o.b);
-                else if (k + 1 == x.size() && (o.b & 2)) x.back() = T(o.b);
-                else if (o.b & 4) *(x.begin() + k) = T(o.b);
-                else if (o.b & 8) *(x.end() - (x.size() - k)) = T(o.b);
-                else x[k] = T(o.b);
+                // forms >= 1: the call form rotates with the operation counter, so that every form is used on every run
+                const long f = g_forms ? g_step % 6 : 0;
+                if (f == 0) { x.write(k, T(o.b)); ++g_fc[F_WRITE]; }
+                else if (f == 1 && k == 0) { x.front() = T(o.b); ++g_fc[F_FRONT_W]; }
+                else if ((f == 1 || f == 2) && k + 1 == x.size()) { x.back() = T(o.b); ++g_fc[F_BACK_W]; }
+                else if (f == 3) { *(x.begin() + k) = T(o.b); ++g_fc[F_BEGIN_W]; }
+                else if (f == 4) { *(x.end() - (x.size() - k)) = T(o.b); ++g_fc[F_END_W]; }
+                else if (f == 5) { x.baseptr()[k] = T(o.b); ++g_fc[F_BASEPTR_W]; }
+                else { x[k] = T(o.b); ++g_fc[F_INDEX_W]; }
             }
             orc.write(o.h, k, o.b); break; }
         }
@@ -208,16 +227,20 @@ template <class T> struct World {
             if (addr) { out.push_back(addr_id(x.dat())); out.push_back(addr_id(x.cnt())); }
             for (size_t k = 0; k < x.size(); ++k) out.push_back(cell(i, k));
         }
+        if (addr) out.push_back(pool_outstanding());       // blocks the pool has handed out to this world
     }
     // element k of handle i through the public read accessors
     long cell(int i, size_t k) {
         const Acc<T>& x = H(i);
-        if (!g_forms) { T v; x.read(k, v); return cell_value(v); }
-        switch ((k + i) % 4) {
-        case 0: return cell_value(x[k]);
-        case 1: return cell_value(*(x.begin() + k));
-        case 2: return cell_value(k == 0 ? x.front() : (k + 1 == x.size() ? x.back() : x[k]));
-        default: return cell_value(*(x.end() - (x.size() - k)));
+        if (!g_forms) { T v; x.read(k, v); ++g_fc[F_READ]; return cell_value(v); }
+        switch ((k + i) % 5) {
+        case 4: ++g_fc[F_BASEPTR_R]; return cell_value(x.baseptr()[k]);
+        case 0: ++g_fc[F_INDEX_R]; return cell_value(x[k]);
+        case 1: ++g_fc[F_BEGIN_R]; return cell_value(*(x.begin() + k));
+        case 2: if (k == 0) { ++g_fc[F_FRONT_R]; return cell_value(x.front()); }
+                if (k + 1 == x.size()) { ++g_fc[F_BACK_R]; return cell_value(x.back()); }
+                ++g_fc[F_INDEX_R]; return cell_value(x[k]);
+        default: ++g_fc[F_END_R]; return cell_value(*(x.end() - (x.size() - k)));
         }
     }
     std::string show() {
@@ -233,6 +256,7 @@ template <class T> struct World {
             for (size_t k = 0; k < x.size(); ++k) { if (k) o << " "; o << cell(i, k); }
             o << "] ";
         }
+        if (addr) o << "out=" << pool_outstanding() << " ";
         return o.str();
     }
     // implementation vs oracle; empty string when they agree
@@ -279,8 +303,10 @@ static long pool_outstanding() {
 
 template <class T> static std::string cmd_seq(bool stop, const Fx& fx, bool addr, int nh, const std::vector<std::string>& toks) {
     pool_baseline();
-    World<T> w(nh, addr);
+    const long gmp0 = g_gmp_out;
     std::ostringstream out;
+    {
+    World<T> w(nh, addr);
     for (size_t k = 0; k < toks.size(); ++k) {
         Op o = parse_op(toks[k]);
         int d = w.defect(fx, o);
@@ -294,6 +320,9 @@ template <class T> static std::string cmd_seq(bool stop, const Fx& fx, bool addr
         w.cleanup();
         if (addr) { long po = pool_outstanding(); if (po != 0) out << "POOL-LEAK outstanding=" << po; }
     }
+    else return out.str();
+    }
+    if (g_gmp_out != gmp0) out << "POOL-LEAK gmp=" << (g_gmp_out - gmp0) << " GMP allocation(s) outstanding after all handles were destroyed";
     return out.str();
 }
 
@@ -311,7 +340,7 @@ static std::vector<AOp> alphabet(int nh, const std::vector<int>& sizes) {
 }
 static Op op_of(const AOp& a, int k) {
     Op o; o.kind = a.kind; o.h = a.h; o.a = a.arg; o.b = 0;
-    if (a.kind == 'B') o.b = 100 * (k + 1);
+    if (a.kind == 'B') o.b = (k % 2 == 1) ? 0 : 100 * (k + 1);
     if (a.kind == 'P') o.b = 100 * (k + 1) + 7;
     if (a.kind == 'X') { o.a = k % 2; o.b = 100 * (k + 1) + 3 + 16 * (k % 5); }
     return o;
@@ -336,8 +365,22 @@ static std::string show_seq(const std::vector<AOp>& seq) {
 template <class T> struct Enum {
     Fx fx; bool addr; int nh; int lmax; std::vector<AOp> alpha; long nodes, ndef; std::ostringstream extra; int nextra;
     void visit(std::vector<AOp>& seq, int mx) {
+        const long gmp0 = g_gmp_out;
+        visit1(seq, mx);
+        // every element the containers constructed has been destroyed again (Integer elements own GMP limbs)
+        if (g_gmp_out != gmp0 && nextra < 20) { ++nextra; extra << "\nGMP-LEAK " << show_seq(seq) << ": " << (g_gmp_out - gmp0) << " GMP allocation(s) outstanding after all handles were destroyed"; }
+        if ((int) seq.size() < lmax && !stop_here)
+            for (size_t i = 0; i < alpha.size(); ++i) {
+                int m = used_after(mx, alpha[i]);
+                if (m == -2) continue;
+                seq.push_back(alpha[i]); visit(seq, m); seq.pop_back();
+            }
+        stop_here = false;
+    }
+    bool stop_here;
+    void visit1(std::vector<AOp>& seq, int mx) {
         World<T> w(nh, addr);
-        ++nodes;
+        ++nodes; stop_here = false;
         int dk = -1, dcode = 0;
         for (size_t k = 0; k < seq.size(); ++k) {
             Op o = op_of(seq[k], (int) k);
@@ -347,7 +390,7 @@ template <class T> struct Enum {
         }
         if (dk >= 0) {
             if (dk == (int) seq.size() - 1) { ++ndef; mix(-dcode); } else mix(-100);
-            w.cleanup();
+            w.cleanup(); stop_here = true;
             return;
         }
         std::vector<long> obs; w.observe(obs);
@@ -356,16 +399,10 @@ template <class T> struct Enum {
         if (!diff.empty() && nextra < 20) { ++nextra; extra << "\nORACLE-MISMATCH " << show_seq(seq) << ": " << diff; }
         w.cleanup();
         if (addr) { long po = pool_outstanding(); if (po != 0 && nextra < 20) { ++nextra; extra << "\nPOOL-LEAK " << show_seq(seq) << ": outstanding=" << po; } }
-        if ((int) seq.size() < lmax)
-            for (size_t i = 0; i < alpha.size(); ++i) {
-                int m = used_after(mx, alpha[i]);
-                if (m == -2) continue;
-                seq.push_back(alpha[i]); visit(seq, m); seq.pop_back();
-            }
     }
 };
 template <class T> static std::string cmd_enum(const Fx& fx, bool addr, int nh, const std::vector<int>& sizes, int lmax, const std::vector<std::string>& prefix) {
-    Enum<T> e; e.fx = fx; e.addr = addr; e.nh = nh; e.lmax = lmax; e.alpha = alphabet(nh, sizes); e.nodes = e.ndef = 0; e.nextra = 0;
+    Enum<T> e; e.fx = fx; e.addr = addr; e.nh = nh; e.lmax = lmax; e.alpha = alphabet(nh, sizes); e.nodes = e.ndef = 0; e.nextra = 0; e.stop_here = false;
     g_h1 = g_h2 = 0; pool_baseline();
     std::vector<AOp> seq; int mx = -1;
     for (size_t i = 0; i < prefix.size(); ++i) {
@@ -409,6 +446,7 @@ static std::string cmd_alloc(bool fixed0, const std::vector<std::string>& toks) 
         for (size_t k = 0; k < lists[i].second.size(); ++k) { if (k) out << ","; out << addr_id(lists[i].second[k]); }
         out << " ";
     }
+    if (n >= 0) out << "O" << ((long) g_ids.size() - n) << " ";      // blocks handed out and not returned (every block was numbered when it was handed out)
     return out.str();
 }
 static std::string cmd_sb(const std::vector<std::string>& toks) {
@@ -609,15 +647,10 @@ static std::string cmd_refcounter() {
 }
 
 // ---------------------------------------------------------------- GMP allocation balance
-static long g_gmp_out = 0;
-static void* c_alloc(size_t n) { ++g_gmp_out; return malloc(n); }
-static void* c_realloc(void* p, size_t, size_t n) { return realloc(p, n); }
-static void c_free(void* p, size_t) { --g_gmp_out; free(p); }
 template <class F> static void balance(std::ostringstream& out, const char* name, F f) {
     long before = g_gmp_out; f(); out << name << "=" << (g_gmp_out - before) << " ";
 }
 static std::string cmd_leak() {
-    mp_set_memory_functions(c_alloc, c_realloc, c_free);
     std::ostringstream out;
     const Integer big = (Integer(1) << 200) + 12345, big2 = (Integer(1) << 130) - 7;
     balance(out, "integer-arith", [&] { Integer a(big), b(big2), c; c = a * b + a / b - (a % b); c *= c; c = pow(c, 3); Integer g = gcd(a, b); g += c; Integer::axpyin(g, a, b); g = -g; });
@@ -654,6 +687,7 @@ static std::string cmd_implicitcopy() {
 }
 
 int main() {
+    mp_set_memory_functions(c_alloc, c_realloc, c_free);
     const char* f = getenv("C17_FORMS"); g_forms = f ? atoi(f) : 0;
     std::string line;
     while (std::getline(std::cin, line)) {
@@ -678,6 +712,19 @@ int main() {
         else if (t[0] == "rcenum" && t.size() >= 3) { r = cmd_rcenum(std::vector<std::string>(t.begin() + 1, t.end())); }
         else if (t[0] == "rc") { r = cmd_rc(std::vector<std::string>(t.begin() + 1, t.end())); }
         else if (t[0] == "refcounter") { r = cmd_refcounter(); }
+        else if (t[0] == "formcounts") { std::ostringstream o; o << "FORMS"; for (int i = 0; i < F_NFORMS; ++i) o << " " << g_fname[i] << "=" << g_fc[i]; r = o.str(); }
+        else if (t[0] == "mmcpy") {     // GivMMFreeList::memcpy(dest, src, n) between two pooled blocks; the bytes after n and the source stay as they were
+            std::ostringstream o; int bad = 0;
+            const size_t szs[] = {1, 8, 31, 32, 33, 100, 1000};
+            for (size_t a = 0; a < 7; ++a) for (size_t n = 0; n <= szs[a]; n += (szs[a] < 40 ? 1 : 37)) {
+                unsigned char* d = (unsigned char*) GivMMFreeList::allocate(szs[a]); unsigned char* q = (unsigned char*) GivMMFreeList::allocate(szs[a]);
+                for (size_t k = 0; k < szs[a]; ++k) { d[k] = (unsigned char) (k * 3 + 1); q[k] = (unsigned char) (200 - k); }
+                GivMMFreeList::memcpy(d, q, n);
+                for (size_t k = 0; k < szs[a]; ++k) { if (d[k] != (k < n ? (unsigned char) (200 - k) : (unsigned char) (k * 3 + 1))) ++bad; if (q[k] != (unsigned char) (200 - k)) ++bad; }
+                GivMMFreeList::desallocate(d); GivMMFreeList::desallocate(q);
+            }
+            o << "bad=" << bad; r = o.str();
+        }
         else if (t[0] == "rcnull") {    // GivMMRefCount::resize(0, 0, 16) on a recycled block whose data[0] is not 1
             void* f = GivMMFreeList::allocate(24); memset(f, 0x77, 24); GivMMFreeList::desallocate(f);
             void* p = GivMMRefCount::resize(0, 0, 16);
